@@ -222,6 +222,19 @@ PROPS["C09"] = {
 }
 
 
+PROPS["C10"] = {
+    "level": "exploration",
+    "engine": "vsched",
+    "level_text": "1-3 client threads, each with a Future<void>, a Future<int> and a Future<String>, run generated programs (start with 0-3 arguments and member functions, join, result conversion, destroy, abort, state queries, virtual sleeps that open the worker-retirement window) against freshly installed worker pools of generated size (min 0-2, max 3-5, queue capacity 1/2/4/256; 15% of the cases use the lazily created global pool) under sampled schedules of the deterministic scheduler; decision points at every atomic / volatile access of the lock-free queue, the FastSignal flags and the Signal / Mutex calls",
+    "level_note": "trusted: vsched/rt.cpp (sequential consistency at instrumented granularity, virtual time, modelled pthread primitives), execution counters of the started functions; the harness TU includes src/Future.cpp with -fno-access-control to construct pools; schedules are sampled; 'eventually' = no deadlock verdict and completion within the step bound (a step-bound hit is inconclusive)",
+    "technique": "randomised deterministic scheduling (schedule = generated input) of generated client programs over generated pool configurations, with execution-count and result oracles and deadlock detection",
+    "rule": "case = pool configuration, 1-3 client programs, 6 schedules (40 when replaying) cycling through uniform / few-preemptions / PCT / round-robin strategies. Oracle: when join / destructor / conversion / restart returns the call has run exactly once with the given arguments, the converted value is the function's return value, isAborted() only after abort(), otherwise isFinished(); at the end every call ran exactly once; no deadlock; nothing leaked after the pool is destroyed. "
+            "Non-trivial = (>=2 clients AND queue capacity <=2 AND >=4 starts: pushes meet a full queue and workers race clients) OR a case that sleeps past the idle-worker retirement time between starts; distinct by case text hash.",
+    "assumptions": ["started functions terminate and do not wait on other futures", "a Future object is used by one client thread"],
+    "parts": [opf("future", ["harness/c10_future.cpp"], {"cases": 5000, "maxsize": 22}, {"cases": 40000, "maxsize": 24, "workers": 16}, flavour="sched", cflags=["-fno-access-control"], deps=["harness/vs_common.hpp"])],
+}
+
+
 # property modules kept in separate files (props_cXX.py define PROPS["CXX"] using the helpers above)
 import glob as _glob, os as _os
 for _f in sorted(_glob.glob(_os.path.join(_os.path.dirname(_os.path.abspath(__file__)), "props_c*.py"))):
